@@ -3,11 +3,14 @@
    satisfying the two interface hypotheses WF and H1 (validated against the implementation's event trace on every
    run), for the exact-key memo (the cfg(taffy_verif) hook; the real lossy key is a known finding).
    Proved at the level of the value a layout call returns (LayoutOutput of the root: size, baselines, margins)
-   and of cache validity everywhere in the tree.  The per-node STORED layouts are not covered by a theorem:
-   C01_layouts_refuted_for_scribbling_algorithms shows why (and names the known finding). *)
+   and of cache validity everywhere in the tree.  The per-node STORED layouts: refuted for algorithms that write layouts
+   while answering a size query (C01_layouts_refuted_for_scribbling_algorithms, the known finding computesize-scribble),
+   proved for algorithms that do not (C01_layouts_equal_fresh_for_nonscribbling_algorithms; hypotheses NS, HQ, H3). *)
 From Coq Require Import List Bool Arith NArith.
 From TV Require Import Model.Engine Model.EngineToy Proofs.EngineMemo Proofs.EngineDirty Proofs.EngineHistory
-  Proofs.EngineScribble Proofs.EngineToyProofs Proofs.EngineNoScribble.
+  Proofs.EngineScribble Proofs.EngineToyProofs Proofs.EngineNoScribble
+  Model.EngineLayouts Model.EngineLayoutsToy Proofs.EngineLayoutsPlain Proofs.EngineLayoutsMemo Proofs.EngineLayoutsHistory
+  Proofs.EngineLayoutsToy.
 Import ListNotations.
 
 (* a memoised evaluation returns what the cache-free evaluation of the same skeleton returns, keeps every cache entry
@@ -91,6 +94,156 @@ Theorem C01_size_queries_write_no_layout_for_nonscribbling_algorithms :
       lays S In Out Lay t' = lays S In Out Lay t /\ NoNone S In Out Lay is_none t'.
 Proof. intros until algo. intros HNS f t i o t' Hm HN H. eapply size_query_writes_no_layout; eauto. Qed.
 
+(* ---- the positive layout-level theorem ----
+   For every algorithm that is well behaved with respect to the stored layouts, with the exact-key memo:
+     WF  never issues a hidden-mode query;
+     H1  a PerformLayout evaluation PerformLayout-queries every child (Visits);
+     H3  a PerformLayout evaluation stores every child's layout, and a display:none child is not queried again after its
+         last SetLayout (SetsLast) -- a miss on a display:none child zeroes its stored layout, a hit does not: this is the
+         `order` defect repaired in the three hidden-child loops (perform_child_layout first, set_unrounded_layout after);
+     NS  a ComputeSize evaluation issues only ComputeSize queries and stores no layout (SizeOnly);
+     HQ  a display:none child is never asked for its size (NoHiddenSize) -- a ComputeSize miss on it would zero a layout
+         that a later PerformLayout hit on its parent no longer restores;
+   after ANY history of mutators (at nodes with no display:none ancestor; attached subtrees coherent, e.g. freshly built)
+   and PerformLayout passes starting from a tree satisfying the invariants (e.g. a freshly built one), a further
+   PerformLayout pass returns the output AND stores, in every node strictly below the root, the layout that the same pass
+   gives on a freshly built tree with the same shape, styles and measure data.  (The root's own stored layout is written by
+   compute_root_layout, outside the engine skeleton.)
+   taffy's block algorithm falsifies NS (perform_final_layout_on_in_flow_children runs, and calls set_unrounded_layout,
+   while answering a ComputeSize query: known finding computesize-scribble), flexbox/grid/leaf satisfy it; so this theorem
+   characterises exactly what that defect breaks: NS is the only hypothesis the implementation's traces violate. *)
+Theorem C01_layouts_equal_fresh_for_nonscribbling_algorithms :
+  forall (S In Out Lay : Type) (mode : In -> RunMode) (in_eqb : In -> In -> bool) (is_none : S -> bool)
+         (hidden_out : Out) (zero_lay : Lay) (algo : S -> list S -> In -> Alg In Out Lay),
+    (forall a b, in_eqb a b = true -> a = b) ->
+    (forall s st i, WFAlg In Out Lay mode (algo s st i)) ->
+    (forall s st i, mode i = PerformLayout -> Visits In Out Lay mode (seq 0 (length st)) (algo s st i)) ->
+    (forall s st i, mode i = PerformLayout -> SetsLast In Out Lay (nones S is_none st) (seq 0 (length st)) (algo s st i)) ->
+    (forall s st i, mode i = ComputeSize -> SizeOnly In Out Lay mode (algo s st i)) ->
+    (forall s st i, NoHiddenSize In Out Lay mode (nones S is_none st) (algo s st i)) ->
+    forall t0 ops f f' i o o' t1 t2,
+      Inv S In Out Lay mode is_none hidden_out algo t0 ->
+      Coh S In Out Lay mode is_none hidden_out zero_lay algo t0 ->
+      run_ok_l S In Out Lay mode in_eqb is_none hidden_out zero_lay algo t0 ops ->
+      mode i = PerformLayout ->
+      memo S In Out Lay mode in_eqb is_none hidden_out zero_lay algo f
+           (run_ops S In Out Lay mode in_eqb is_none hidden_out zero_lay algo t0 ops) i = Some (o, t1) ->
+      memo S In Out Lay mode in_eqb is_none hidden_out zero_lay algo f'
+           (fresh S In Out Lay zero_lay (skel S In Out Lay (run_ops S In Out Lay mode in_eqb is_none hidden_out zero_lay algo t0 ops))) i
+        = Some (o', t2) ->
+      o = o' /\ lkids Lay (lays S In Out Lay t1) = lkids Lay (lays S In Out Lay t2).
+Proof.
+  intros until algo. intros Hk HWF HH1 HH3 HNS HHQ t0 ops f f' i o o' t1 t2 HI HC Hok Hm M1 M2.
+  destruct (relayout_layouts_equal_fresh S In Out Lay mode in_eqb is_none hidden_out zero_lay algo Hk HWF HH1 HH3 HNS HHQ
+              t0 ops f f' i o o' t1 t2 HI HC Hok Hm M1 M2) as [Eo [El _]].
+  split; assumption.
+Qed.
+
+(* one pass, from any valid coherent tree: the memoised PerformLayout evaluation leaves below the node what the cache-free
+   layout-writing evaluation plain_l of the same (style + layout) tree leaves, and the tree stays coherent *)
+Theorem C01_memo_layouts_sound :
+  forall (S In Out Lay : Type) (mode : In -> RunMode) (in_eqb : In -> In -> bool) (is_none : S -> bool)
+         (hidden_out : Out) (zero_lay : Lay) (algo : S -> list S -> In -> Alg In Out Lay),
+    (forall a b, in_eqb a b = true -> a = b) ->
+    (forall s st i, WFAlg In Out Lay mode (algo s st i)) ->
+    (forall s st i, mode i = PerformLayout -> Visits In Out Lay mode (seq 0 (length st)) (algo s st i)) ->
+    (forall s st i, mode i = PerformLayout -> SetsLast In Out Lay (nones S is_none st) (seq 0 (length st)) (algo s st i)) ->
+    (forall s st i, mode i = ComputeSize -> SizeOnly In Out Lay mode (algo s st i)) ->
+    (forall s st i, NoHiddenSize In Out Lay mode (nones S is_none st) (algo s st i)) ->
+    forall f t i o t',
+      mode i = PerformLayout ->
+      Valid S In Out Lay mode is_none hidden_out algo t ->
+      Coh S In Out Lay mode is_none hidden_out zero_lay algo t ->
+      memo S In Out Lay mode in_eqb is_none hidden_out zero_lay algo f t i = Some (o, t') ->
+      Coh S In Out Lay mode is_none hidden_out zero_lay algo t' /\
+      exists g r, plain_l S In Out Lay mode is_none hidden_out zero_lay algo g (strip S In Out Lay t) i = Some (o, r) /\
+                  skids S Lay r = map (strip S In Out Lay) (kids_of S In Out Lay t').
+Proof.
+  intros until algo. intros Hk HWF HH1 HH3 HNS HHQ f t i o t' Hm HV HC M.
+  assert (Hm' : mode i <> PerformHiddenLayout) by congruence.
+  assert (Hq : mode i = ComputeSize -> is_none (style_of S In Out Lay t) = false) by (intros E; congruence).
+  destruct (memo_coh S In Out Lay mode in_eqb is_none hidden_out zero_lay algo Hk HWF HH1 HH3 HNS HHQ f t i o t' Hm' Hq HV HC M)
+    as [HC' [_ Hex]].
+  split; assumption.
+Qed.
+
+(* the layouts a cache-free PerformLayout evaluation leaves below a node depend only on the skeleton and the input,
+   not on the layouts stored before *)
+Theorem C01_plain_layouts_determined_by_skeleton :
+  forall (S In Out Lay : Type) (mode : In -> RunMode) (is_none : S -> bool)
+         (hidden_out : Out) (zero_lay : Lay) (algo : S -> list S -> In -> Alg In Out Lay),
+    (forall s st i, WFAlg In Out Lay mode (algo s st i)) ->
+    (forall s st i, mode i = PerformLayout -> Visits In Out Lay mode (seq 0 (length st)) (algo s st i)) ->
+    (forall s st i, mode i = PerformLayout -> SetsLast In Out Lay (nones S is_none st) (seq 0 (length st)) (algo s st i)) ->
+    (forall s st i, mode i = ComputeSize -> SizeOnly In Out Lay mode (algo s st i)) ->
+    (forall s st i, NoHiddenSize In Out Lay mode (nones S is_none st) (algo s st i)) ->
+    forall g g' x y i o1 r1 o2 r2,
+      mode i = PerformLayout -> sk_of S Lay x = sk_of S Lay y ->
+      plain_l S In Out Lay mode is_none hidden_out zero_lay algo g x i = Some (o1, r1) ->
+      plain_l S In Out Lay mode is_none hidden_out zero_lay algo g' y i = Some (o2, r2) ->
+      o1 = o2 /\ skids S Lay r1 = skids S Lay r2.
+Proof. intros until algo. intros HWF HH1 HH3 HNS HHQ. intros. eapply plain_l_det; eauto. Qed.
+
+(* a freshly built tree is coherent (it has no cache entry at all) *)
+Theorem C01_fresh_coh :
+  forall (S In Out Lay : Type) (mode : In -> RunMode) (is_none : S -> bool) (hidden_out : Out) (zero_lay : Lay)
+         (algo : S -> list S -> In -> Alg In Out Lay) k,
+    Coh S In Out Lay mode is_none hidden_out zero_lay algo (fresh S In Out Lay zero_lay k).
+Proof. intros. apply Coh_fresh. Qed.
+
+(* HQ cannot be dropped: an instance satisfying the exact key, WF, H1, H3 and NS whose middle node asks its display:none
+   child for a size: the size query misses, zeroes the child's stored layout, and the parent's later PerformLayout hit
+   does not restore it (no mutation; only the root input changes; same skeleton) *)
+Theorem C01_layouts_refuted_when_hidden_children_are_sized :
+  (forall s st i, WFAlg TIn TOut TLay t_mode (q_algo s st i)) /\
+  (forall s st i, t_mode i = PerformLayout -> Visits TIn TOut TLay t_mode (seq 0 (length st)) (q_algo s st i)) /\
+  (forall s st i, t_mode i = PerformLayout -> SetsLast TIn TOut TLay (nones TS t_is_none st) (seq 0 (length st)) (q_algo s st i)) /\
+  (forall s st i, t_mode i = ComputeSize -> SizeOnly TIn TOut TLay t_mode (q_algo s st i)) /\
+  option_map q_leaf_lay (q_after [1%N; 2%N]) = Some (Some 0%N) /\
+  option_map q_leaf_lay (q_after [2%N]) = Some (Some 50%N) /\
+  option_map (skel TS TIn TOut TLay) (q_after [1%N; 2%N]) = option_map (skel TS TIn TOut TLay) (q_after [2%N]).
+Proof.
+  split; [exact q_algo_WF|]. split; [exact q_algo_H1|]. split; [exact q_algo_H3|]. split; [exact q_algo_NS|]. exact hq_witness.
+Qed.
+
+(* the order requirement of H3 cannot be dropped (this is the repaired `order` defect): an instance satisfying the exact
+   key, WF, H1, NS, HQ that stores every child's layout, but stores a display:none child's layout BEFORE querying it *)
+Theorem C01_layouts_refuted_when_hidden_child_is_set_before_its_query :
+  (forall s st i, WFAlg TIn TOut TLay t_mode (o_algo s st i)) /\
+  (forall s st i, t_mode i = PerformLayout -> Visits TIn TOut TLay t_mode (seq 0 (length st)) (o_algo s st i)) /\
+  (forall s st i, t_mode i = PerformLayout -> SetsLast TIn TOut TLay (fun _ => false) (seq 0 (length st)) (o_algo s st i)) /\
+  (forall s st i, t_mode i = ComputeSize -> SizeOnly TIn TOut TLay t_mode (o_algo s st i)) /\
+  (forall s st i, NoHiddenSize TIn TOut TLay t_mode (nones TS t_is_none st) (o_algo s st i)) /\
+  option_map o_child_lay (o_after [1%N; 2%N]) = Some (Some 50%N) /\
+  option_map o_child_lay (o_after [2%N]) = Some (Some 0%N) /\
+  option_map (skel TS TIn TOut TLay) (o_after [1%N; 2%N]) = option_map (skel TS TIn TOut TLay) (o_after [2%N]).
+Proof.
+  split; [exact o_algo_WF|]. split; [exact o_algo_H1|]. split; [exact o_algo_sets_every_child|]. split; [exact o_algo_NS|].
+  split; [exact o_algo_HQ|]. exact order_witness.
+Qed.
+
+(* the hypotheses of the layout-level theorem are satisfiable: the toy instance of Model/EngineLayoutsToy.v (children are
+   queried in the parent's run mode, layouts are stored only in PerformLayout mode and after the query, display:none
+   children get the hidden-child query + with_order only in PerformLayout mode), and a concrete well-formed history
+   (display:none node, style change, attached subtree, three passes) on which both sides store non-trivial layouts *)
+Example C01_layouts_hypotheses_satisfiable :
+  (forall a b, t_in_eqb a b = true -> a = b) /\
+  (forall s st i, WFAlg TIn TOut TLay t_mode (l_algo s st i)) /\
+  (forall s st i, t_mode i = PerformLayout -> Visits TIn TOut TLay t_mode (seq 0 (length st)) (l_algo s st i)) /\
+  (forall s st i, t_mode i = PerformLayout -> SetsLast TIn TOut TLay (nones TS t_is_none st) (seq 0 (length st)) (l_algo s st i)) /\
+  (forall s st i, t_mode i = ComputeSize -> SizeOnly TIn TOut TLay t_mode (l_algo s st i)) /\
+  (forall s st i, NoHiddenSize TIn TOut TLay t_mode (nones TS t_is_none st) (l_algo s st i)) /\
+  Inv TS TIn TOut TLay t_mode t_is_none 0%N l_algo lx_tree /\
+  Coh TS TIn TOut TLay t_mode t_is_none 0%N 0%N l_algo lx_tree /\
+  run_ok_l TS TIn TOut TLay t_mode t_in_eqb t_is_none 0%N 0%N l_algo lx_tree lx_ops /\
+  l_memo 8 lx_run (PerformLayout, 9%N) <> None /\
+  l_memo 8 (fresh TS TIn TOut TLay 0%N (skel TS TIn TOut TLay lx_run)) (PerformLayout, 9%N) <> None.
+Proof.
+  split; [exact t_in_eqb_eq|]. split; [exact l_algo_WF|]. split; [exact l_algo_H1|]. split; [exact l_algo_H3|].
+  split; [exact l_algo_NS|]. split; [exact l_algo_HQ|]. split; [apply Inv_fresh|]. split; [apply Coh_fresh|].
+  split; [exact lx_run_ok|]. split; vm_compute; discriminate.
+Qed.
+
 (* the hypotheses are satisfiable: the toy instance, and a concrete well-formed history on it *)
 Example C01_hypotheses_satisfiable :
   (forall a b, t_in_eqb a b = true -> a = b) /\
@@ -105,3 +258,9 @@ Print Assumptions C01_fresh_inv.
 Print Assumptions C01_mark_dirty_noop.
 Print Assumptions C01_layouts_refuted_for_scribbling_algorithms.
 Print Assumptions C01_size_queries_write_no_layout_for_nonscribbling_algorithms.
+Print Assumptions C01_layouts_equal_fresh_for_nonscribbling_algorithms.
+Print Assumptions C01_memo_layouts_sound.
+Print Assumptions C01_plain_layouts_determined_by_skeleton.
+Print Assumptions C01_fresh_coh.
+Print Assumptions C01_layouts_refuted_when_hidden_children_are_sized.
+Print Assumptions C01_layouts_refuted_when_hidden_child_is_set_before_its_query.
